@@ -28,7 +28,8 @@ func (g *gen) chance(p float64, label string) bool {
 	if p <= 0 {
 		return false
 	}
-	return rapid.Float64Range(0, 1).Draw(g.t, label) < p
+	// "no" is the simple answer: rapid shrinks the draw towards 0
+	return rapid.Float64Range(0, 1).Draw(g.t, label) > 1-p
 }
 
 // GenRoot draws a valid CLI-level configuration.
